@@ -13,11 +13,20 @@ package backend
 // technique backend/slice_test.go uses). No call site is changed. (mockey prints
 // a one-line notice about -gcflags on stderr at start-up; the patches work
 // without it because time.Now and time.NewTicker are not inlined.)
+//
+// The patches do NOT use mockey's Origin proxies: in an optimised build (no
+// -gcflags="all=-N -l") calling such a proxy faults, so every time.Now() made
+// by the process while no virtual clock was in force (the harness' own
+// shrinker, for one) used to crash it.  Outside a virtual clock the patched
+// time.Now reads the wall clock with gettimeofday(2) (no monotonic reading),
+// and the patched time.NewTicker hands out a hand-made ticker.
 
 import (
 	"context"
+	"errors"
 	"sync"
 	"sync/atomic"
+	"syscall"
 	"time"
 
 	"github.com/bytedance/mockey"
@@ -28,14 +37,42 @@ var (
 	verifClock     int64        // virtual unix seconds
 	verifTickCh    atomic.Value // chan time.Time handed out by the patched time.NewTicker, or nil
 	verifPatchOnce sync.Once
-	verifOrigNow   func() time.Time
-	verifOrigTick  func(time.Duration) *time.Ticker
 )
+
+// verifWallNow reads the wall clock without going through time.Now.
+func verifWallNow() time.Time {
+	var tv syscall.Timeval
+	if err := syscall.Gettimeofday(&tv); err != nil {
+		return time.Unix(0, 0)
+	}
+	return time.Unix(int64(tv.Sec), int64(tv.Usec)*1000)
+}
+
+// verifPlainTicker stands in for the original time.NewTicker outside a
+// hook-owned round: a channel fed every d by a goroutine.  Ticker.Stop does not
+// reach it (the goroutine stays); only code that runs in a harness process
+// after the patch was installed ever gets one.
+func verifPlainTicker(d time.Duration) *time.Ticker {
+	if d <= 0 {
+		panic(errors.New("non-positive interval for NewTicker"))
+	}
+	ch := make(chan time.Time, 1)
+	go func() {
+		for {
+			time.Sleep(d)
+			select {
+			case ch <- time.Now():
+			default:
+			}
+		}
+	}()
+	return &time.Ticker{C: ch}
+}
 
 type verifTick struct{ ch chan time.Time }
 
-// verifPatch installs the two patches once per process. They are transparent
-// (call the original function) unless a virtual clock / a hook-owned ticker
+// verifPatch installs the two patches once per process. They behave like the
+// original functions (see above) unless a virtual clock / a hook-owned ticker
 // channel is in force, so they are left in place: installing a patch costs
 // close to a millisecond.
 func verifPatch() {
@@ -45,14 +82,14 @@ func verifPatch() {
 			if atomic.LoadInt32(&verifClockOn) == 1 {
 				return time.Unix(atomic.LoadInt64(&verifClock), 0)
 			}
-			return verifOrigNow()
-		}).Origin(&verifOrigNow).Build()
+			return verifWallNow()
+		}).Build()
 		mockey.Mock(time.NewTicker).To(func(d time.Duration) *time.Ticker {
 			if t := verifTickCh.Load().(verifTick); t.ch != nil {
 				return &time.Ticker{C: t.ch}
 			}
-			return verifOrigTick(d)
-		}).Origin(&verifOrigTick).Build()
+			return verifPlainTicker(d)
+		}).Build()
 	})
 }
 
